@@ -286,6 +286,27 @@ func copyRegularFile(src, dst string, perm os.FileMode) error {
 	return dstFile.Close()
 }
 
+// isWithin reports whether p is dir itself or lies below dir.
+func isWithin(dir, p string) bool {
+	rel, err := filepath.Rel(dir, p)
+	return err == nil && rel != ".." && !strings.HasPrefix(rel, ".."+string(filepath.Separator))
+}
+
+// checkCopyMove checks the source and destination of a copy or move before
+// anything is modified.
+func checkCopyMove(srcPath, dstPath string) error {
+	if isWithin(srcPath, dstPath) || isWithin(dstPath, srcPath) {
+		return NewHTTPError(http.StatusForbidden, fmt.Errorf("webdav: source and destination are the same resource or contain one another"))
+	}
+	if _, err := os.Stat(srcPath); err != nil {
+		return errFromOS(err)
+	}
+	if fi, err := os.Stat(filepath.Dir(dstPath)); err != nil || !fi.IsDir() {
+		return NewHTTPError(http.StatusConflict, fmt.Errorf("webdav: the destination's parent collection doesn't exist"))
+	}
+	return nil
+}
+
 func (fs LocalFileSystem) Copy(ctx context.Context, src, dst string, options *CopyOptions) (created bool, err error) {
 	srcPath, err := fs.localPath(src)
 	if err != nil {
@@ -296,11 +317,8 @@ func (fs LocalFileSystem) Copy(ctx context.Context, src, dst string, options *Co
 		return false, err
 	}
 
-	// TODO: "Note that an infinite-depth COPY of /A/ into /A/B/ could lead to
-	// infinite recursion if not handled correctly"
-
-	if _, err := os.Stat(srcPath); err != nil {
-		return false, errFromOS(err)
+	if err := checkCopyMove(srcPath, dstPath); err != nil {
+		return false, err
 	}
 
 	if _, err := os.Stat(dstPath); err != nil {
@@ -358,6 +376,10 @@ func (fs LocalFileSystem) Move(ctx context.Context, src, dst string, options *Mo
 	}
 	dstPath, err := fs.localPath(dst)
 	if err != nil {
+		return false, err
+	}
+
+	if err := checkCopyMove(srcPath, dstPath); err != nil {
 		return false, err
 	}
 
